@@ -272,6 +272,27 @@ def shared_smooth_maxpow(rng, nbits, both):
       return p * q, p, q
 
 
+def shared_smooth_cofactor(rng, nbits, both):
+  """p = S*b + 1, q = S*c + 1 where the shared 2^20-smooth S >= 2^60 holds the
+  *square* of a prime above 863 (so S does not divide the default Pollard
+  product, which holds those primes once) and b is a squarefree product of
+  primes below 2^20 (c too iff both).  This is the case the documented base
+  a = 2^(n-1) is for: p - 1 divides (n - 1) * m although it does not divide m."""
+  sp = [x for x in small_primes() if x > 863]
+  while True:
+    r = rng.choice(sp)
+    S, used = r * r, {r}
+    while (S // r).bit_length() < 63:
+      t = rng.choice(small_primes()[1:])
+      if t not in used:
+        used.add(t)
+        S *= t
+    p = _squarefree_smooth_prime(rng, S, nbits // 2, used, True)
+    q = _squarefree_smooth_prime(rng, S, nbits // 2, used, both)
+    if p and q and p != q:
+      return p * q, p, q
+
+
 def shared_smooth_squarefree(rng, nbits, both, bound):
   """p-1 and q-1 share a squarefree product (>= 2^60) of distinct odd primes
   below bound; p-1 is a squarefree product of primes below bound (so it
